@@ -11,12 +11,11 @@ for sid in ids:
     prop = meta['property']
     st = subprocess.run(['git', '-C', '/repo', 'status', '--porcelain', '--untracked-files=no'], capture_output=True, text=True).stdout.strip()
     assert st == '', '/repo not clean: ' + st
-    ap = subprocess.run(['git', '-C', '/repo', 'apply', d + '/patch.diff'], capture_output=True, text=True)
+    pf = d + '/patch_rebased.diff' if os.path.exists(d + '/patch_rebased.diff') else d + '/patch.diff'
+    ap = subprocess.run(['git', '-C', '/repo', 'apply', pf], capture_output=True, text=True)
     if ap.returncode != 0:
-        ap = subprocess.run(['git', '-C', '/repo', 'apply', '--3way', d + '/patch.diff'], capture_output=True, text=True)
-    if ap.returncode != 0:
-        rows.append((sid, 'PATCH-DOES-NOT-APPLY', '', 0)); print(rows[-1], flush=True)
-        subprocess.run(['git', '-C', '/repo', 'checkout', '--', '.']); subprocess.run(['git', '-C', '/repo', 'reset', '-q'])
+        rows.append((sid, 'PATCH-DOES-NOT-APPLY', ap.stderr.strip().splitlines()[0][:100] if ap.stderr.strip() else '', 0)); print(rows[-1], flush=True)
+        subprocess.run(['git', '-C', '/repo', 'checkout', '--', '.'])
         continue
     t0 = time.time()
     try:
